@@ -34,12 +34,12 @@ META = {
         'Trusted: the harness stepper (delivery before the n-th statement boundary, calibrated at run time), the '
         'virtual clock (a TIMER occurrence = the clock passing one full period at a boundary). Choice points where '
         'the statement pins nothing - every resolution accepted: order of handlers that fire at the same boundary; '
-        'whether an occurrence arriving during an active error handler is handled after RESUME or dropped; whether OFF '
+        'whether OFF '
         'discards an occurrence remembered during STOP; what a STOP issued while the trap is OFF remembers. Not '
         'generated: STOP on a trap that was never ON, STOP of a trap inside its own handler, two occurrences of the '
         'same event at the same boundary (indistinguishable from one under a remembered-flag reading), errors inside '
         'the error handler, CLEAR / RUN / STOP+CONT inside a handler (what they do to trap state is not in the statement), an ON in '
-        'the main part after a handler was abandoned by RESUME <line>. An occurrence while ON is expected to be handled at the boundary where it is delivered '
+        'the main part after a handler was abandoned by RESUME <line>. An occurrence while the ON ERROR handler is active (trap ON or STOPped) is remembered and must be handled exactly once after RESUME, never inside the error handler. An occurrence while ON is expected to be handled at the boundary where it is delivered '
         '(pcbasic polls once per statement). COM traps need a serial device and PLAY traps a draining music queue: '
         'not exercised.'),
     'rule': ('case = (program shape, event kinds, schedule); distinct by that triple; non-trivial = at least one occurrence '
@@ -64,7 +64,7 @@ META = {
                                  'entries_after_handler_left_by_return_line', 'plain_gosub_levels_inside_handler',
                                  'runs_preceded_by_errh_end', 'runs_preceded_by_errh_error', 'runs_preceded_by_errh_break',
                                  'runs_preceded_by_handler_end', 'runs_preceded_by_handler_break', 'runs_preceded_by_stop_pending',
-                                 'runs_after_clear',
+                                 'runs_after_clear', 'entries_after_resume_for_occurrence_during_error_handler',
                                  'handlers_abandoned_by_resume_line']},
     'timeout': {'quick': 900, 'thorough': 10800},
 }
@@ -537,6 +537,7 @@ STAT_COUNTERS = [
     ('entries_after_return_line', 'entries_after_handler_left_by_return_line'),
     ('plain_gosub_levels_inside_handler', 'plain_gosub_levels_inside_handler'),
     ('handlers_abandoned_by_resume_line', 'handlers_abandoned_by_resume_line'),
+    ('entries_after_resume', 'entries_after_resume_for_occurrence_during_error_handler'),
     ('redefinitions', 'on_event_gosub_reexecuted'),
     ('redefinitions_in_nontrivial_state', 'on_event_gosub_reexecuted_while_stopped_pending_or_in_handler'),
 ]
@@ -690,6 +691,12 @@ def directed(rig, res):
     D.append(('no-reentry', P('plain', 'long', 'K'), {3: ['K'], 4: ['K'], 5: ['K']}))
     D.append(('reentry-after-on-inside', P('plain', 'on', 'K'), {3: ['K'], 5: ['K']}))
     D.append(('not-in-error-handler', P('err', 'h0', 'K'), {6: ['K']}))
+    for kd in ('K', 'P', 'S', 'T', 'U'):
+        # an occurrence before every statement of the error handler (E< / E> / RESUME NEXT): handled once after RESUME
+        for bnd in (6, 7, 8):
+            D.append(('in-error-handler-%s@%d' % (kd, bnd), P('err', 'h0', kd), {bnd: [kd]}))
+        D.append(('in-error-handler-%s-twice' % kd, P('err', 'h0', kd), {6: [kd], 8: [kd]}))
+        D.append(('in-error-handler-while-stopped-%s' % kd, P('stoperr', 'h0', kd), {7: [kd]}))
     D.append(('not-after-end', P('early', 'h0', 'K'), {POST: ['K']}))
     D.append(('timer', P('plain', 'h0', 'T'), {4: ['T'], 5: ['T']}))
     D.append(('timer-off-lost', P('offon', 'h0', 'T'), {6: ['T']}))
